@@ -44,6 +44,9 @@ type HPACK struct {
 	// COMPRESSION_ERROR on a header that indexed one of them.
 	// https://tools.ietf.org/html/rfc7541#section-6.3
 	pendingSizeUpdate bool
+	// smallest size set since the peer was last told: it has to be announced
+	// too, or the peer keeps entries we evicted on the way.
+	pendingMinSize uint32
 }
 
 func headerFieldsToString(hfs []*HeaderField, indexOffset int) string {
@@ -104,6 +107,10 @@ func (hp *HPACK) Reset() {
 func (hp *HPACK) SetMaxTableSize(size uint32) {
 	if hp.maxTableSize == size && hp.maxTableSizeSettings == size {
 		return
+	}
+
+	if !hp.pendingSizeUpdate || size < hp.pendingMinSize {
+		hp.pendingMinSize = size
 	}
 
 	hp.maxTableSizeSettings = size
@@ -589,6 +596,10 @@ func (hp *HPACK) AppendHeader(dst []byte, hf *HeaderField, store bool) []byte {
 	// follows the change.
 	if hp.pendingSizeUpdate {
 		hp.pendingSizeUpdate = false
+
+		if hp.pendingMinSize < hp.maxTableSize {
+			dst = appendInt(append(dst, 0x20), 5, uint64(hp.pendingMinSize))
+		}
 
 		dst = appendInt(append(dst, 0x20), 5, uint64(hp.maxTableSize))
 	}
